@@ -402,6 +402,11 @@ def run(tier, seed, jobs):
     refill1 = (("b1", 1, 0, 1, 0, 16, "a", None, "PUT"), ("b1", 1, 1, 0, 0, 16, "a", None, "PUT"), ("t", 0.7 * MTW),
                ("b1", 1, 0, 1, 0, 16, "a", None, "PUT"), ("t", 0.6 * MTW))
     work.append(("b1", refill1, 20, 2 if tier == "quick" else 3))
+    # the state has expired and drained once; a new transfer is then left alone for more than twice the lifetime: it is gone as well
+    drained1 = (("b1", 1, 0, 1, 0, 16, "a", None, "PUT"), ("t", 2 * MTW + 0.1), ("b1", 1, 0, 1, 0, 16, "a", None, "PUT"), ("t", 2 * MTW + 0.1))
+    drained2 = (("b2", 1, 0, 0), ("t", 2 * MTW + 0.1), ("b2", 1, 0, 0), ("t", 2 * MTW + 0.1))
+    work.append(("b1", drained1, 20, 2))
+    work.append(("b2", drained2, 64, 2))
     return core.prun(job, work, jobs)
 
 
